@@ -244,7 +244,14 @@ class Ctx:
         if r == "unsat":
             return None
         if r == "unknown":
-            raise SolverUnknown("division side condition")
+            # the disjunction over all divisors was too much at once: decide them one by one on their slice of the path condition
+            for a in alts:
+                ri, _ = fresh_check(self.relevant(a) + [a], self.timeout_ms, stats=self.stats)
+                if ri == "sat":
+                    return a
+                if ri == "unknown":
+                    raise SolverUnknown("division side condition")
+            return None
         for a in alts:
             if z3.is_true(m.eval(a, model_completion=True)):
                 return a
